@@ -62,6 +62,11 @@ var witnesses = []witness{
 	{"dec", "n", "g0.v1.All", `{"flatChoice":null,"flatA":"x"}`},
 	{"dec", "n", "g1.v1.Tree", strings.Repeat(`{"left":`, 300)},
 	{"dec", "n", "g1.v1.RW", `{"any":{"!type":"g1.v1.Tree","value":` + strings.Repeat("[", 200) + strings.Repeat("]", 200) + `}}`},
+	// 309b762: Any values nested 100 deep are still expanded (WithProtoToAny), the 101st is rejected
+	{"dec", "p", "g1.v1.RW", strings.Repeat(`{"any":{"!type":"g1.v1.RW","value":`, 3) + `{}` + strings.Repeat(`}}`, 3)},
+	{"dec", "p", "g1.v1.RW", strings.Repeat(`{"any":{"!type":"g1.v1.RW","value":`, 100) + `{}` + strings.Repeat(`}}`, 100)},
+	{"dec", "p", "g1.v1.RW", strings.Repeat(`{"any":{"!type":"g1.v1.RW","value":`, 101) + `{}` + strings.Repeat(`}}`, 101)},
+	{"dec", "n", "g1.v1.RW", strings.Repeat(`{"any":{"!type":"g1.v1.RW","value":`, 101) + `{}` + strings.Repeat(`}}`, 101)},
 	{"query", "n", "test.schema.v1.FullSchema", "sString"},
 	{"query", "n", "test.schema.v1.FullSchema", "sBool=true"},
 	{"query", "n", "test.schema.v1.FullSchema", "rBool=true&false"},
